@@ -456,8 +456,10 @@ Definition spec_run (v : vcf) (run : cfg * list query) : list answer :=
   end.
 
 (* ------------------------------------------------------------------ preconditions of the theorems *)
-Definition name_char_ok (c : Z) : bool := negb (is_space c) && negb (c =? 44).
-Definition name_ok (s : str) : bool := negb (length s =? 0)%nat && forallb name_char_ok s.
+(* what the cache line format supports: no tab / newline / comma inside a sample name, blanks allowed except as the
+   last character (line.strip() would eat it when the name ends the line) *)
+Definition name_char_ok (c : Z) : bool := negb ((c =? 9) || (c =? 10) || (c =? 13) || (c =? 44)).
+Definition name_ok (s : str) : bool := negb (is_space (last s 32)) && forallb name_char_ok s.
 Definition base_char_ok (c : Z) : bool := negb ((c =? 9) || (c =? 10) || (c =? 13)).
 Definition rec_ok (v : vcf) (r : vrec) : bool :=
   smem (r_chrom r) (v_contigs v)
@@ -492,6 +494,18 @@ Definition names_ok (ks : list (cfg * str)) : bool :=
      || (seqb (snd k1) (snd k2) && same_sem (fst k1) (fst k2))) ks) ks.
 Definition hist_ok (h : list (cfg * list query)) : bool :=
   forallb (fun run => forallb (fun q => 0 <=? query_pos q) (snd run)) h && names_ok (keys_of h).
+
+(* ------------------------------------------------------------------ getAllele(reads) *)
+(* alleles = set(); for every aligned (read base, reference position): c = self.getAllelesAt(chrom, refPos, readBase);
+   if c is not None and len(c) == 1: alleles.update(c).  The state changes only through these getAllelesAt calls: a
+   getAllele operation is the sequence of its lookups (the harness expands it) followed by this pure fold. *)
+Definition allele_keep (a : answer) : list str :=
+  match a with
+  | ASome ss => if g_allele_keep true (Z.of_nat (length ss)) then ss else []
+  | _ => []
+  end.
+Definition alleles_of (l : list answer) : list str :=
+  fold_left (fun acc a => fold_left (fun acc s => sins s acc) (allele_keep a) acc) l [].
 
 (* ------------------------------------------------------------------ several resolver objects in one process *)
 (* objects are numbered; an object is constructed when it is first used; every object owns its table
@@ -592,7 +606,8 @@ Fixpoint list_eqb {A} (e : A -> A -> bool) (a b : list A) : bool :=
    mode 4: [content] -> what read_cached makes of a cache file for contig "c" (lines as (pos, base, samples))
    mode 5: [cfg; contig] -> cache file name (and whether the contig is cached at all)
    mode 6: [vcf; objects (cfgs); ops ([object; query])] -> [answers; cache files]   (several objects, interleaved)
-   mode 7: precondition of C18_objects_independent;  mode 8: the answers the specification demands for mode 6 *)
+   mode 7: precondition of C18_objects_independent;  mode 8: the answers the specification demands for mode 6
+   mode 9: [answers of the getAllelesAt calls of one getAllele(reads)] -> the set it returns *)
 Definition run_C18 (mode : Z) (x : Val) : Val :=
   match mode with
   | 0 => let v := dec_vcf (nthV 0 x) in
@@ -615,5 +630,6 @@ Definition run_C18 (mode : Z) (x : Val) : Val :=
   | 7 => ofB (vcf_ok (dec_vcf (nthV 0 x)) && sess_ok (map dec_cfg (getL (nthV 1 x))) (map dec_op (getL (nthV 2 x))))
   | 8 => let objs := map dec_cfg (getL (nthV 1 x)) in
          VL (map (fun op => enc_answer (spec_op (dec_vcf (nthV 0 x)) objs op)) (map dec_op (getL (nthV 2 x))))
+  | 9 => VL (map enc_str (alleles_of (map dec_answer (getL (nthV 0 x)))))
   | _ => bad
   end.
